@@ -208,7 +208,7 @@ func c08S2(r *Run, rep *core.Report) {
 							same := dest != nil && core.StripConv(dest) == core.CounterOwner(args[0])
 							rep.Check(fi.OK && same, "C08.S2", fn(rz)+" recount target", r.P.InstrPos(ref), "copied count added to the new, not yet published table the entries went to",
 								"copied count is added to a table that is published already or is not the copy's destination: "+fi.Why)
-							if ref.Block() != c.Block() {
+							if ref.Block() != c.Block() && !onlyWhenNonZero(c, ref.Block()) {
 								rep.Fail("C08.S2", fn(rz)+" recount placement", r.P.InstrPos(ref), "the count of a copied bucket is not added in the same step as the copy")
 							}
 						}
@@ -491,4 +491,48 @@ func c08S4(r *Run, rep *core.Report) {
 		}
 	}
 	rep.MinCount("C08.S4", "counter update call sites", n, 4)
+}
+
+// onlyWhenNonZero: block b is entered from the copy call's block exactly through the 'count is not zero' edge of a test
+// of the copy's result (adding a zero count is skipped: a no-op).
+func onlyWhenNonZero(c *ssa.Call, b *ssa.BasicBlock) bool {
+	if len(b.Preds) != 1 || b.Preds[0] != c.Block() {
+		return false
+	}
+	iff, ok := c.Block().Instrs[len(c.Block().Instrs)-1].(*ssa.If)
+	if !ok {
+		return false
+	}
+	bo, ok := iff.Cond.(*ssa.BinOp)
+	if !ok {
+		return false
+	}
+	var other ssa.Value
+	switch {
+	case bo.X == ssa.Value(c):
+		other = bo.Y
+	case bo.Y == ssa.Value(c):
+		other = bo.X
+	default:
+		return false
+	}
+	if k, isK := core.ConstInt(other); !isK || k != 0 {
+		return false
+	}
+	nonZeroEdge := -1
+	switch bo.Op {
+	case token.NEQ:
+		nonZeroEdge = 0
+	case token.EQL:
+		nonZeroEdge = 1
+	case token.GTR:
+		if bo.X == ssa.Value(c) {
+			nonZeroEdge = 0 // c > 0 (counts are never negative)
+		}
+	case token.LSS:
+		if bo.Y == ssa.Value(c) {
+			nonZeroEdge = 0 // 0 < c
+		}
+	}
+	return nonZeroEdge >= 0 && c.Block().Succs[nonZeroEdge] == b
 }
